@@ -37,6 +37,8 @@ func checkC01(p *Prog, r *Report) {
 	r.rule("C01.S8", "Recv copies a segment's data into the caller's buffer and advances by its length before recycling it", 1)
 	r.rule("C01.S9", "WriteBuffers hands kcp.Send pieces of at most mss bytes and continues exactly where the piece ended; n counts each input slice once", 2)
 	r.rule("C01.S10", "bufptr is assigned only recvbuf[n:] / bufptr[n:] with n the result of the copy just made; a Read takes at most one message from the core", 3)
+	r.rule("C01.S15", "the reader's carry-over bytes stay owned: a buffer that bufptr (or another field) points into is never handed back to the pool without clearing that pointer (= C15.O6)", 0)
+	r.rule("C01.S14", "the receiver stores what the header says: the segment handed to parse_data binds sn and frg to the header fields read at the encoder's offsets for sn and frg, and data to data[:len] with len read at the encoder's offset of the length", 1)
 	r.rule("C01.S13", "recovered packets carry no checksum of their own, so the stream inherits the FEC framing discipline: emission of absent data slots only, cache wipe/flag pairing, padding before Encode/ReconstructData, size prefix written and validated (= C07.F1, F1b, F2, F3, F6)", 10)
 	r.rule("C01.S11", "the packets returned by fecDecoder.decode are consumed only by KCP.Input (same admission as wire data) and by the pool", 1)
 
@@ -202,7 +204,12 @@ func checkC01(p *Prog, r *Report) {
 			}
 			rs := enclosingRange(p, s.Call)
 			if rs == nil {
-				why = "segments are recycled outside a loop over snd_buf"
+				// callback form: snd_buf.ForEach(func(seg *segment) bool { ... }) — `return false` ends the scan
+				if okCb, whyCb := parseUnaCallbackForm(p, fi, s, una); okCb {
+					ok = true
+				} else {
+					why = whyCb
+				}
 				continue
 			}
 			id, _ := rs.Key.(*ast.Ident)
@@ -431,6 +438,8 @@ func checkC01(p *Prog, r *Report) {
 	for _, fr := range []string{"C07.F1", "C07.F1b", "C07.F2", "C07.F3", "C07.F6"} {
 		delegate(p, r, "C07", checkC07, fr, "C01.S13")
 	}
+	delegate(p, r, "C15", checkC15, "C15.O6", "C01.S15")
+	checkStoredSegmentFields(p, r)
 	checkCoreCutting(p, r)
 	checkSessionChunking(p, r)
 	checkReadCarryOver(p, r)
@@ -515,8 +524,15 @@ func checkSessionChunking(p *Prog, r *Report) {
 		construct := "kcp.Send(" + exprString(arg) + ")"
 		fs := fa.AtNode(s.Call)
 		t := p.Term(arg)
+		// a local copy of kcp.mss taken under the same lock (mss := s.kcp.mss) stands for the field
+		isMss := func(x *Term) bool {
+			if x == nil {
+				return false
+			}
+			return stripConvKey(x) == mss.Key() || stripConvKey(p.resolveSingleDefs(fi, x)) == mss.Key()
+		}
 		switch {
-		case t.Op == "slice" && t.Args[1] == nil && t.Args[2] != nil && stripConvKey(t.Args[2]) == mss.Key():
+		case t.Op == "slice" && t.Args[1] == nil && t.Args[2] != nil && isMss(t.Args[2]):
 			// b[:mss] — the remainder must continue at mss: b = b[mss:] right after
 			pt, _ := c.PointOf(s.Call)
 			okNext := false
@@ -524,7 +540,7 @@ func checkSessionChunking(p *Prog, r *Report) {
 			for i := pt.I + 1; i < len(pt.B.Nodes); i++ {
 				if as, ok := pt.B.Nodes[i].(*ast.AssignStmt); ok && len(as.Lhs) == 1 && len(as.Rhs) == 1 {
 					rt := p.Term(as.Rhs[0])
-					if p.Term(as.Lhs[0]).Key() == base.Key() && rt.Op == "slice" && rt.Args[0].Key() == base.Key() && rt.Args[1] != nil && stripConvKey(rt.Args[1]) == mss.Key() && rt.Args[2] == nil {
+					if p.Term(as.Lhs[0]).Key() == base.Key() && rt.Op == "slice" && rt.Args[0].Key() == base.Key() && rt.Args[1] != nil && isMss(rt.Args[1]) && rt.Args[2] == nil {
 						okNext = true
 					}
 				}
@@ -533,6 +549,14 @@ func checkSessionChunking(p *Prog, r *Report) {
 		default:
 			// whole remainder: needs len(b) <= mss
 			ok := fs.Holds(le(mk("len", t), mss)) || fs.Holds(le(mk("len", t), &Term{Op: "conv", Str: "int", Args: []*Term{mss}}))
+			if !ok {
+				// the comparison may have been made against a local copy of mss
+				for _, a := range fs.resolvedAtoms() {
+					if a.Op == "<=" && a.Args[0].Key() == mk("len", t).Key() && isMss(a.Args[1]) {
+						ok = true
+					}
+				}
+			}
 			r.check(ok, "C01.S9", fi.Name, p.Pos(s.Call), construct, "under len(b) <= mss", "a piece longer than mss can be handed to the core (it would be fragmented into a multi-segment message and, in stream mode, merged differently)")
 		}
 	}
@@ -792,7 +816,7 @@ func checkCoreCutting(p *Prog, r *Report) {
 		if !isA || len(as.Lhs) != 1 || len(as.Rhs) != 1 {
 			return true
 		}
-		t := p.Term(as.Rhs[0])
+		t := stripConvs(p.resolveSingleDefs(fi, p.Term(as.Rhs[0])))
 		if t.Op == "/" {
 			want := add(add(mk("len", B), mss), tConst(-1))
 			if stripConvKey(t.Args[1]) == mss.Key() && Lin(stripConvs(t.Args[0])).Equal(Lin(want)) {
@@ -819,6 +843,7 @@ func stripConvs(t *Term) *Term {
 		return t
 	}
 	n := *t
+	n.key = ""
 	n.Args = make([]*Term, len(t.Args))
 	for i, a := range t.Args {
 		n.Args[i] = stripConvs(a)
@@ -856,4 +881,186 @@ func sliceElemStructOfHeap(p *Prog, hp *Term) *types.Var {
 		}
 	}
 	return out
+}
+
+// checkStoredSegmentFields: C01.S14.
+func checkStoredSegmentFields(p *Prog, r *Report) {
+	input := p.FuncOf(p.Method("KCP", "Input"))
+	enc := p.FuncOf(p.Method("segment", "encode"))
+	wt := p.writerTable(enc, firstByteSliceParam(p, enc))
+	off := map[string]int64{}
+	for _, f := range wt {
+		off[f.Name] = f.Off
+	}
+	data := firstByteSliceParam(p, input)
+	// header reads: local -> offset
+	readOff := map[*types.Var]int64{}
+	inspectBody(input, func(n ast.Node) bool {
+		as, ok := n.(*ast.AssignStmt)
+		if !ok || len(as.Lhs) != 1 || len(as.Rhs) != 1 {
+			return true
+		}
+		id, ok := as.Lhs[0].(*ast.Ident)
+		if !ok {
+			return true
+		}
+		v, _ := p.Info.Defs[id].(*types.Var)
+		if v == nil {
+			return true
+		}
+		switch x := ast.Unparen(as.Rhs[0]).(type) {
+		case *ast.CallExpr:
+			if f := p.Callee(x); f != nil && f.Pkg() != nil && f.Pkg().Path() == "encoding/binary" && strings.HasPrefix(f.Name(), "Uint") && len(x.Args) == 1 {
+				if o, ok := p.sliceOffsetConst(x.Args[0], data); ok {
+					readOff[v] = o
+				}
+			}
+		case *ast.IndexExpr:
+			if bid, ok := ast.Unparen(x.X).(*ast.Ident); ok && p.Info.Uses[bid] == data {
+				if c, ok := p.constVal(x.Index); ok {
+					readOff[v] = c
+				}
+			}
+		}
+		return true
+	})
+	n := 0
+	for _, s := range p.CallsTo(p.Method("KCP", "parse_data")) {
+		if s.Fn != input {
+			continue
+		}
+		n++
+		cl, ok := ast.Unparen(s.Call.Args[0]).(*ast.CompositeLit)
+		if !ok {
+			r.undecided("C01.S14", input.Name, p.Pos(s.Call), "segment stored by the receiver", "parse_data is not given a composite literal")
+			continue
+		}
+		got := map[string]ast.Expr{}
+		for _, el := range cl.Elts {
+			if kv, ok := el.(*ast.KeyValueExpr); ok {
+				if k, ok := kv.Key.(*ast.Ident); ok {
+					got[k.Name] = kv.Value
+				}
+			}
+		}
+		var missing []string
+		for _, fld := range []string{"sn", "frg"} {
+			okF := false
+			if e, has := got[fld]; has {
+				if id, isId := ast.Unparen(e).(*ast.Ident); isId {
+					if v, isV := p.Info.Uses[id].(*types.Var); isV {
+						if o, hasO := readOff[v]; hasO && o == off[fld] {
+							okF = true
+						}
+					}
+				}
+			}
+			if !okF {
+				missing = append(missing, fld)
+			}
+		}
+		okD := false
+		if e, has := got["data"]; has {
+			if se, isS := ast.Unparen(e).(*ast.SliceExpr); isS && se.Low == nil && se.High != nil {
+				if bid, isB := ast.Unparen(se.X).(*ast.Ident); isB && p.Info.Uses[bid] == data {
+					if hid, isH := ast.Unparen(se.High).(*ast.Ident); isH {
+						if v, isV := p.Info.Uses[hid].(*types.Var); isV {
+							if o, hasO := readOff[v]; hasO && o == off["len"] {
+								okD = true
+							}
+						}
+					}
+				}
+			}
+		}
+		if !okD {
+			missing = append(missing, "data")
+		}
+		r.check(len(missing) == 0, "C01.S14", input.Name, p.Pos(s.Call), "segment stored by the receiver", "sn, frg and data[:len] bound to the header fields of this segment", fmt.Sprintf("the stored segment does not carry %v from the header (a dropped frg makes every fragment a message of its own: message boundaries are lost; a wrong sn or length reorders or truncates the stream)", missing))
+	}
+	if n == 0 {
+		r.bad("C01.S14", input.Name, p.Pos(input.Node), "segment stored by the receiver", "Input never calls parse_data", "")
+	}
+}
+
+// parseUnaCallbackForm: the cumulative-acknowledgement rule for the callback
+// spelling of the scan.
+func parseUnaCallbackForm(p *Prog, fi *FuncInfo, s Site, una *Term) (bool, string) {
+	lit, isLit := enclosingFuncLit(p, s.Call)
+	if !isLit {
+		return false, "segments are recycled outside a loop over snd_buf"
+	}
+	call, ok := p.parents[lit].(*ast.CallExpr)
+	if !ok || p.Callee(call) != p.Method("RingBuffer", "ForEach") {
+		return false, "segments are recycled outside a scan of snd_buf"
+	}
+	if sel, ok := ast.Unparen(call.Fun).(*ast.SelectorExpr); !ok {
+		return false, "scan target not understood"
+	} else if _, ok := fieldBase(p.Term(sel.X), p.Field("KCP", "snd_buf")); !ok {
+		return false, "the scan is not over snd_buf"
+	}
+	lfi := s.Fn
+	if lfi.Lit != lit {
+		return false, "callback not resolved"
+	}
+	if len(lit.Type.Params.List) != 1 || len(lit.Type.Params.List[0].Names) != 1 {
+		return false, "callback signature not understood"
+	}
+	seg := tVar(p.Info.Defs[lit.Type.Params.List[0].Names[0]])
+	acked := p.ExpandHelpers(lt(tConst(0), p.Diff(una, p.F(seg, "segment", "sn"))))
+	c := p.CFG(lfi)
+	pt, _ := c.PointOf(s.Call)
+	okAck := false
+	for _, ct := range c.DominatingConds(pt) {
+		for _, a := range Conjuncts(p.ExpandHelpers(ct)) {
+			if a.Key() == acked.Key() {
+				okAck = true
+			}
+		}
+	}
+	var cntVar *types.Var
+	cnt := 0
+	for _, nd := range pt.B.Nodes {
+		if lhsE, isI := p.incBy1(nd); isI {
+			if cid, isId := lhsE.(*ast.Ident); isId {
+				cntVar, _ = p.Info.Uses[cid].(*types.Var)
+				cnt++
+			}
+		}
+	}
+	// from the not-acknowledged edge no `return true` (continue the scan) is reachable
+	stops := false
+	for _, b := range c.live {
+		ct := c.CondTerm(b)
+		if ct == nil || len(b.Succs) != 2 {
+			continue
+		}
+		e := p.ExpandHelpers(ct)
+		var notAck *cfg.Block
+		switch {
+		case e.Key() == acked.Key():
+			notAck = b.Succs[1]
+		case e.Key() == Negate(acked).Key():
+			notAck = b.Succs[0]
+		default:
+			continue
+		}
+		res := c.FindPath(PathQuery{From: Point{notAck, 0}, IsTarget: func(n ast.Node, _ Point) bool {
+			if rs, ok := n.(*ast.ReturnStmt); ok && len(rs.Results) == 1 {
+				return p.Term(rs.Results[0]).Op != "false"
+			}
+			return false
+		}})
+		stops = !res.Found
+	}
+	disc := false
+	for _, d := range p.CallsTo(p.Method("RingBuffer", "Discard")) {
+		if d.Fn == fi && cntVar != nil && d.Args[0].Op == "var" && d.Args[0].Obj == cntVar {
+			disc = true
+		}
+	}
+	if okAck && cnt == 1 && stops && disc {
+		return true, ""
+	}
+	return false, fmt.Sprintf("freed only under _itimediff(una, seg.sn) > 0: %v; counted exactly once with the recycle: %v; the scan stops at the first segment that is not acknowledged: %v; Discard(count) after the scan: %v", okAck, cnt == 1, stops, disc)
 }
